@@ -4,8 +4,16 @@ open Gsu.Proto Gsu.Ixkey
 def natList (s : String) : Option (List Nat) :=
   if s = "-" then some [] else allSome ((s.splitOn ",").map parseNat)
 
+/-- signed field list: `-(idx+2)` is the `_lower!` form of field `idx` -/
+def fldList (s : String) : Option (List Fld) :=
+  if s = "-" then some [] else
+    allSome ((s.splitOn ",").map fun x => match parseInt x with
+      | some (Int.ofNat n) => some ⟨n, false⟩
+      | some (Int.negSucc n) => if n ≥ 1 then some ⟨n - 1, true⟩ else none
+      | none => none)
+
 /-- ops:
-  key <fields> <fields2> <f0> <f1> …      → key bytes
+  key <fields> <fields2> <f0> <f1> …      → key bytes   (keyl / cmpl: same with signed fields, -(i+2) = field i _lower!)
   cmp <fields> <fields2> <nf1> r1… r2…    → -1|0|1
   enc <b>                                 → bytes
   decode <b>                              → fields joined by space
@@ -18,6 +26,14 @@ def natList (s : String) : Option (List Nat) :=
 -/
 def step (l : List String) : String :=
   match l with
+  | "keyl" :: fs :: fs2 :: rec =>
+    match fldList fs, natList fs2, allSome (rec.map parseBytes) with
+    | some f, some f2, some r => showBytes (keyL f f2 r)
+    | _, _, _ => "bad-op"
+  | "cmpl" :: fs :: fs2 :: n :: rest =>
+    match fldList fs, natList fs2, parseNat n, allSome (rest.map parseBytes) with
+    | some f, some f2, some n, some r => showOrd (compareL f f2 (r.take n) (r.drop n))
+    | _, _, _, _ => "bad-op"
   | "key" :: fs :: fs2 :: rec =>
     match natList fs, natList fs2, allSome (rec.map parseBytes) with
     | some f, some f2, some r => showBytes (key f f2 r)
